@@ -519,6 +519,72 @@ let gen_decimals oc r tier =
     one m sc
   done
 
+
+(* ------------------------------------------------------------------ several values derived from one base *)
+(* A base list and a sequence of {% set xi = xj|filter(args) %} steps (merge, slice, sort, reverse; an argument can be an
+   earlier value), every value printed only after all were computed. Filters are functions of their inputs in the model,
+   so each value is what its own step computed, whatever was derived from the same source later: a filter that
+   writes into the backing array of an operand (append into spare capacity, sorting in place, a window of the
+   caller's slice) shows up as an earlier value that changed. cap: spare capacity of the base slice built in Go. *)
+type dstep = { src : int; df : string; dargs : [ `V of M.value | `R of int ] list }
+
+let emit_derive oc r ~stream (base : M.value) (cap : int) (steps : dstep list) =
+  let vals = ref [ base ] in
+  let ok = ref true in
+  let used = ref [] in
+  List.iter (fun st ->
+    if !ok then begin
+      let get i = List.nth (List.rev !vals) i in
+      let args = List.map (function `V v -> v | `R i -> get i) st.dargs in
+      let res = match st.df with
+        | "merge" -> M.flt_merge (get st.src) args | "slice" -> M.flt_slice (get st.src) args
+        | "sort" -> M.flt_sort (get st.src) | "reverse" -> M.flt_reverse (get st.src) | _ -> M.FltUnmod in
+      match res with
+      | M.FltOk (M.VList _ as v) -> vals := v :: !vals; used := st :: !used
+      | _ -> ok := false
+    end) steps;
+  let vals = List.rev !vals and steps = List.rev !used in
+  let outs = List.map (fun v -> match projection (M.FltOk v) with Some (_, o) -> Some o | None -> None) vals in
+  if steps <> [] && not (List.mem None outs) then
+    emit oc (Ob [ "stream", JS stream; "f", JS "derive"; "v", JS (enc_in r base); "cap", JI cap; "nt", JB true;
+                  "steps", JL (List.map (fun st -> Ob [ "src", JI st.src; "f", JS st.df;
+                      "args", JL (List.map (function `V v -> JS (enc_in r v) | `R i -> JS ("r" ^ string_of_int i)) st.dargs) ]) steps);
+                  (* the representation and the text of the items: items that sort as equal (null and the empty string,
+                     1 and '1') may come in any order, Go's sort.Slice is not stable *)
+                  "exp", JL (List.map (fun v -> match v with
+                      | M.VList (t, xs) -> JS ("L" ^ ltag_code t ^ "(" ^ String.concat " " (List.map (fun x -> match text_of x with Some s -> hex s | None -> "?") xs) ^ ")")
+                      | _ -> JS (enc_out v)) vals);
+                  "outs", JL (List.map (function Some o -> JS (hex o) | None -> JS "") outs) ])
+
+let gen_derive oc r tier =
+  let l xs = M.VList (M.LAny, List.map vint xs) in
+  let v x = `V x in
+  (* two merges of one earlier merge result; merges of a slice of a longer list; of a base with spare capacity *)
+  List.iter (fun (base, cap, steps) -> emit_derive oc r ~stream:"derive-fixed" base cap steps)
+    [ l [ 1; 2; 3 ], 0, [ { src = 0; df = "merge"; dargs = [ v (l [ 4 ]) ] }; { src = 1; df = "merge"; dargs = [ v (l [ 5 ]) ] }; { src = 1; df = "merge"; dargs = [ v (l [ 6 ]) ] } ];
+      l [ 1; 2; 3; 4; 5 ], 0, [ { src = 0; df = "slice"; dargs = [ v (vint 0); v (vint 2) ] }; { src = 1; df = "merge"; dargs = [ v (l [ 9 ]) ] }; { src = 1; df = "merge"; dargs = [ v (l [ 8; 7 ]) ] } ];
+      l [ 1; 2 ], 3, [ { src = 0; df = "merge"; dargs = [ v (l [ 5 ]) ] }; { src = 0; df = "merge"; dargs = [ v (l [ 6 ]) ] } ];
+      l [ 3; 1; 2 ], 2, [ { src = 0; df = "sort"; dargs = [] }; { src = 0; df = "reverse"; dargs = [] }; { src = 1; df = "merge"; dargs = [ `R 2 ] }; { src = 1; df = "merge"; dargs = [ `R 0; v (l [ 0 ]) ] } ];
+      l [ 1; 2; 3; 4 ], 0, [ { src = 0; df = "slice"; dargs = [ v (vint 1); v (vint 2) ] }; { src = 1; df = "merge"; dargs = [ v (l [ 7; 7; 7 ]) ] }; { src = 0; df = "reverse"; dargs = [] } ] ];
+  let k = if tier = "thorough" then 20000 else 1200 in
+  for _ = 1 to k do
+    let tag = if rint r 4 = 0 then rand_ltag r else M.LAny in
+    let base = rand_list_of r tag `Valid (rrange r 0 5) in
+    let cap = if rbool r then 0 else rrange r 1 4 in
+    let n = rrange r 2 6 in
+    let steps = List.init n (fun i ->
+      (* sources are reused on purpose: siblings derived from one value *)
+      let src = if i > 0 && rint r 3 > 0 then rint r (min (i + 1) 2) else rint r (i + 1) in
+      match rint r 7 with
+      | 0 -> { src; df = "sort"; dargs = [] }
+      | 1 -> { src; df = "reverse"; dargs = [] }
+      | 2 -> { src; df = "slice"; dargs = [ v (vint (rrange r (-3) 3)) ] @ (if rbool r then [ v (vint (rrange r (-2) 4)) ] else []) }
+      | _ ->
+          let arg () = if rint r 4 = 0 then `R (rint r (i + 1)) else v (rand_list_of r (if rint r 5 = 0 then rand_ltag r else M.LAny) `Valid (rrange r 0 3)) in
+          { src; df = "merge"; dargs = List.init (rrange r 1 2) (fun _ -> arg ()) }) in
+    emit_derive oc r ~stream:"derive-random" base cap steps
+  done
+
 (* ------------------------------------------------------------------ *)
 let run ~seed ~tier oc =
   let r = mk_rng seed in
@@ -532,4 +598,5 @@ let run ~seed ~tier oc =
   gen_keys oc r tier;
   gen_text oc r tier;
   gen_int_numbers oc r tier;
-  gen_decimals oc r tier
+  gen_decimals oc r tier;
+  gen_derive oc r tier
